@@ -60,6 +60,9 @@ var c15Left = []c15Neighbor{
 	{name: "else-ending-in-line-comment", tag: "{if $ij.x}{else}a // c\n{/if}"},
 	{name: "case-ending-in-line-comment", tag: "{switch 1}{case 2}a // c\n{/switch}"},
 	{name: "comment-only-block", tag: "{if not $ij.x} // c\n{/if}"},
+	// header parameter declarations are tags like any other: the text after the last one is a text run
+	{name: "header-param", tag: "{@param? z: ?}", post: "{if $z}{/if}"},
+	{name: "two-header-params", tag: "{@param? z: ?}{@param? y: any = 1}", post: "{if $z}{/if}{if $y}{/if}"},
 }
 
 // right neighbours: tag comes after the text; pre opens a structure before the left neighbour
@@ -111,7 +114,7 @@ func init() {
 	fw.Register(&fw.Prop{
 		ID:    "C15",
 		Level: "exploration",
-		Rule: "exhaustive: every string of length <= 6 (thorough 8) over {a < > space tab CR LF é} as a text run, neighbour pair rotating over 16 left x 12 right neighbour kinds (five / two of them blocks that are not rendered and begin or end with a comment); every string of " +
+		Rule: "exhaustive: every string of length <= 6 (thorough 8) over {a < > space tab CR LF é} as a text run, neighbour pair rotating over 18 left x 12 right neighbour kinds (five / two of them blocks that are not rendered and begin or end with a comment); every string of " +
 			"length <= 4 (thorough 5) between every neighbour pair; seeded longer runs with 中 and 😀; 25 comment placements (output compared modulo whitespace). " +
 			"Oracle: the line-joining rule (ref.RawText). A case is a batch of 200 templates compiled together. distinct = distinct (text run, neighbour pair); non-trivial = run contains whitespace",
 		N: func(tier string) int {
@@ -171,6 +174,9 @@ func init() {
 				}
 				if r.name == "msg-close" && !msgSafe[l.name] {
 					l = c15Left[1]
+				}
+				if strings.Contains(l.name, "header-param") && r.pre != "" {
+					r = c15Right[1] // declarations must come first in the template
 				}
 				if l.name == "msg-open" && r.name == "msg-close" {
 					l.post, r.pre = "", ""
